@@ -191,10 +191,12 @@ class C18(object):
                 titles = titles[:3]
             cols = [[t, [draw_value(rnd, t) for _ in range(nrows)]] for t in titles]
             pars = self.make_payload("pars", seed + 1)["pars"] if rnd.random() < 0.7 else {}
+            pars.pop("filename", None)      # the reader of a columnfile sets this header entry itself, by design
             return {"cols": cols, "pars": pars}
         if fam == "pars":
             names = rnd.sample(["distance", "wavelength", "o11", "cell_lattice_[P,A,B,C,I,F,R]", "fit_tolerance", "t_x", "name_1",
-                                "file_name", "chi", "cell__a", "omegasign", "npks", "x"], rnd.randint(1, 7))
+                                "file_name", "chi", "cell__a", "omegasign", "npks", "x"] + (["filename"] if fam == "pars" else []),
+                               rnd.randint(1, 7))
             pars = {}
             for n in names:
                 k = rnd.choice(["int", "float", "float", "str"])
@@ -242,6 +244,7 @@ class C18(object):
                 px["labels"] = g.integers(0, 5, len(r)).tolist()
             return {"shape": [ns + rnd.randint(0, 3), nf + rnd.randint(0, 3)], "row": r.tolist(), "col": c.tolist(), "pixels": px,
                     "dt": {"intensity": rnd.choice(["float32", "float64", "uint16"]), "labels": "int32"},
+                    "itype": rnd.choice(["uint16", "uint16", "uint32"]),
                     "meta": rnd.random() < 0.5}
         raise ValueError(fam)
 
@@ -392,8 +395,9 @@ class C18(object):
                         M["indexing"].write_ubi_file(p, [np.array(w["ubi"]) for w in payload["grains"]])
                     elif fam == "sparse":
                         px = {n: np.array(v, payload["dt"][n]) for n, v in payload["pixels"].items()}
-                        spf = M["sparseframe"].sparse_frame(np.array(payload["row"], np.uint16), np.array(payload["col"], np.uint16),
-                                                            tuple(payload["shape"]), pixels=px)
+                        it_ = np.dtype(payload.get("itype", "uint16"))
+                        spf = M["sparseframe"].sparse_frame(np.array(payload["row"], it_), np.array(payload["col"], it_),
+                                                            tuple(payload["shape"]), itype=it_, pixels=px)
                         if payload["meta"]:
                             spf.meta["intensity"] = {"threshold": 3.5}
                             if "labels" in px:
@@ -469,6 +473,8 @@ class C18(object):
                     return "%s: shape %s vs %s" % (where, obj.shape, payload["shape"])
                 if list(obj.row) != payload["row"] or list(obj.col) != payload["col"]:
                     return "%s: coordinates differ" % where
+                if not self.lenient_dtype and np.asarray(obj.row).dtype != np.dtype(payload.get("itype", "uint16")):
+                    return "%s: index type saved as %s, read as %s" % (where, payload.get("itype", "uint16"), np.asarray(obj.row).dtype)
                 for n, v in payload["pixels"].items():
                     if n not in obj.pixels:
                         return "%s: pixel array %s lost" % (where, n)
